@@ -296,3 +296,44 @@ M('C09', 'default-p-wrong', (GEO, "self.constant_probability = 1 / self.size", "
 M('C09', 'p1-misses-extreme', (GEO, "if random_float <= self.constant_probability:", "if random_float < self.constant_probability - 1e-16:"))
 M('C09', 'first-arrival-after-fill-always-enters', (GEO, "            random_float = random.random()\n", "            random_float = random.random()\n            if not hasattr(self, '_entered_once'):\n                self._entered_once = True\n                random_float = 0.0\n"))
 M('C09', 'strict-comparison', (GEO, "if random_float <= self.constant_probability:", "if random_float < self.constant_probability:"), kind='equivalent')
+
+# ---- C04 ---------------------------------------------------------------------------------------
+M('C04', 'joint-omits-last-row', (MARG, "        rand_idx = random.randrange(len(features))\n        sampled_instance", "        rand_idx = random.randrange(max(len(features) - 1, 1))\n        sampled_instance"))
+M('C04', 'product-omits-last-row', (MARG, "            rand_idx = random.randrange(len(features))\n            sampled_features[feature_name]", "            rand_idx = random.randrange(max(len(features) - 1, 1))\n            sampled_features[feature_name]"))
+M('C04', 'revert-fix-original-prefix', (BATCH, "                sage_values[feature] += marginal_contribution\n                loss_previous = feature_loss\n        self.importance_values",
+   "                sage_values[feature] += marginal_contribution\n                loss_previous = feature_loss\n            n_data = n\n        self.importance_values"))
+M('C04', 'incremental-fixed-order', (INC, """            permutation_chain = [self.feature_names[index] for index in
+                                 np.random.permutation(len(self.feature_names))]""", """            permutation_chain = list(self.feature_names)"""))
+M('C04', 'incremental-last-feature-always-last', (INC, """            permutation_chain = [self.feature_names[index] for index in
+                                 np.random.permutation(len(self.feature_names))]""", """            permutation_chain = [self.feature_names[index] for index in
+                                 np.random.permutation(len(self.feature_names) - 1)] + [self.feature_names[-1]]"""))
+M('C04', 'product-reuses-row', (MARG, """        for feature_name in feature_subset:
+            rand_idx = random.randrange(len(features))
+""", """        rand_idx = random.randrange(len(features))
+        for feature_name in feature_subset:
+"""))
+M('C04', 'biased-order-by-random-keys', (INC, """            permutation_chain = [self.feature_names[index] for index in
+                                 np.random.permutation(len(self.feature_names))]""", """            import random as _r
+            permutation_chain = sorted(self.feature_names, key=lambda _n: _r.randrange(2))"""))
+M('C04', 'batch-many-fixed-order', (BATCH, """            permutation_chain = [self.feature_names[index] for index in
+                                 np.random.permutation(len(self.feature_names))]
+            loss_previous = self._loss_function(y_i, marginal_prediction)
+            features_not_in_s""", """            permutation_chain = list(self.feature_names)
+            loss_previous = self._loss_function(y_i, marginal_prediction)
+            features_not_in_s"""))
+M('C04', 'original-excludes-own-row', (BATCH, "x_marginal = x_data[random.randint(0, n_data - 1)]", "x_marginal = x_data[(n - 1 + random.randint(1, max(n_data - 1, 1))) % n_data]"))
+M('C04', 'inner-samples-share-row', (MARG, """        predictions = []
+        for _ in range(n_samples):
+            sampled_values = self._sample(self.storage_object, feature_subset)
+""", """        predictions = []
+        sampled_values = None
+        for _ in range(n_samples):
+            sampled_values = sampled_values or self._sample(self.storage_object, feature_subset)
+"""))
+M('C04', 'python-shuffle', (INC, """            permutation_chain = [self.feature_names[index] for index in
+                                 np.random.permutation(len(self.feature_names))]""", """            import random as _r
+            permutation_chain = list(self.feature_names)
+            _r.shuffle(permutation_chain)"""), kind='equivalent')
+M('C04', 'numpy-shuffle', (INC, """            permutation_chain = [self.feature_names[index] for index in
+                                 np.random.permutation(len(self.feature_names))]""", """            permutation_chain = list(self.feature_names)
+            np.random.shuffle(permutation_chain)"""), kind='equivalent')
